@@ -297,6 +297,53 @@ fn run_inner(a: &Args, shard: u64, shards: u64) -> Report {
     }
     if shard == 0 {
         rep.exhaustive_parts.push(format!("every canonical decimal status string 0..{top} on FromStr, SessionResponse and the four numeric constructors"));
+        // every string of up to three characters over the digits and their ASCII neighbours
+        // (a digit test done with arithmetic instead of a range check lets ':' ';' '/' ' ' through)
+        let alpha: Vec<char> = "0123456789 +-./:;<=>?@A".chars().collect();
+        let mut short = vec![String::new()];
+        for len in 1..=3 {
+            let mut idx = vec![0usize; len];
+            loop {
+                short.push(idx.iter().map(|i| alpha[*i]).collect());
+                let mut k = len;
+                loop {
+                    if k == 0 {
+                        break;
+                    }
+                    k -= 1;
+                    idx[k] += 1;
+                    if idx[k] < alpha.len() {
+                        break;
+                    }
+                    idx[k] = 0;
+                    if k == 0 {
+                        k = usize::MAX;
+                        break;
+                    }
+                }
+                if k == usize::MAX {
+                    break;
+                }
+            }
+        }
+        for st in &short {
+            let all_digits = st.len() == 3 && st.bytes().all(|b| b.is_ascii_digit());
+            let v: Option<u64> = if all_digits { st.parse().ok() } else { None };
+            match v {
+                Some(v) => check_status_string(&mut rep, st, Some(v), "short-digits"),
+                None => {
+                    check_status_string(&mut rep, st, None, "short-non-numeric");
+                    // a string that is not a decimal number is never a status code — except the
+                    // spellings Rust's integer parser also takes ("+200", "007" are longer or judged by range above)
+                    if st.bytes().any(|b| !b.is_ascii_digit() && b != b'+') || st.is_empty() {
+                        if let Ok(c) = StatusCode::from_str(st) {
+                            rep.violation("C18|status|from_str-non-numeric", format!("{st:?}.parse::<StatusCode>() = {} although the string is not a number", c.into_inner()), J::obj([("string", J::s(st.clone()))]));
+                        }
+                    }
+                }
+            }
+        }
+        rep.exhaustive_parts.push("every status string of length 0..=3 over the 24 characters \"0123456789 +-./:;<=>?@A\"".into());
         for s in ["", " ", "abc", "2oo", "２００", "200\n", "\u{0}200", "99999999999999999999", "18446744073709551816", "-0", "+", "1e2", "NaN"] {
             check_status_string(&mut rep, s, None, "garbage");
         }
